@@ -7,7 +7,7 @@ import pipeline as P
 from core import BaseProp, Verdict
 from proto import T
 
-RULE = ('random histories of 5-40 API calls (parse in all modes, listings, simplify, dedup, is_equivalent, contains, validate, '
+RULE = ('[two fresh interpreters: expressions built by hand from the public classes before / after the first Licensing of the process answer alike] random histories of 5-40 API calls (parse in all modes, listings, simplify, dedup, is_equivalent, contains, validate, '
         'rendering, combine_expressions, construction of further Licensing objects - including ones with the same keys and other '
         'aliases - successful and failing calls mixed) on 1-3 shared instances and shared expression objects; Spec: each answer '
         'equals the answer of a freshly built instance with the same table and the answer of the model (a pure function of table and '
@@ -198,9 +198,55 @@ class Prop(BaseProp):
                     return Verdict('diverge', case, 'world model (call %d of the parse/validate/construct subsequence)' % i, impl=a, model=b)
         return Verdict('ok', case, nontrivial=len(insts) >= 2 or failed_before, tags=['ops=%d' % (len(case['ops']) // 10 * 10)])
 
+    PRISTINE = '''
+import json, sys
+import license_expression as le
+from license_expression import AND, OR, LicenseSymbol, LicenseWithExceptionSymbol
+order = sys.argv[1]
+def build():
+    return [AND(LicenseSymbol('mit'), OR(LicenseSymbol('gpl'), LicenseSymbol('mit'))), OR(LicenseSymbol('gpl'), LicenseSymbol('mit'), LicenseSymbol('gpl')),
+            AND(LicenseWithExceptionSymbol(LicenseSymbol('gpl'), LicenseSymbol('cp', is_exception=True)), LicenseSymbol('mit'))]
+if order == 'expressions-first':
+    es = build()
+    l = le.Licensing(['mit', 'gpl'])
+else:
+    l = le.Licensing(['mit', 'gpl'])
+    other = le.Licensing()
+    es = build()
+out = []
+for e in es:
+    for name, fn in (('str', lambda: str(e)), ('simplify', lambda: str(e.simplify())), ('dedup', lambda: str(l.dedup(e))),
+                     ('is_equivalent', lambda: l.is_equivalent(e, e)), ('contains', lambda: l.contains(e, 'mit')),
+                     ('license_keys', lambda: l.license_keys(e)), ('combine', lambda: str(le.combine_expressions([e, 'mit'])))):
+        try:
+            out.append([name, fn()])
+        except Exception as x:
+            out.append([name, 'raised ' + type(x).__name__])
+print(json.dumps(out))
+'''
+
+    def pristine(self):
+        """the answers on expressions built by hand from the public classes do not depend on whether any Licensing existed in the
+        process when they were built: two fresh interpreters, the expressions built before / after the first Licensing"""
+        import json as _json
+        import os
+        import subprocess
+        import sys
+        env = dict(os.environ, PYTHONPATH=impl.REPO_SRC)
+        outs = {}
+        for order in ('expressions-first', 'licensing-first'):
+            p = subprocess.run([sys.executable, '-c', self.PRISTINE, order], capture_output=True, text=True, env=env, timeout=120)
+            outs[order] = _json.loads(p.stdout) if p.returncode == 0 and p.stdout.strip() else 'exit %d: %s' % (p.returncode, p.stderr[-300:])
+        case = {'pristine process': 'expressions built by hand before / after the first Licensing of the process'}
+        if outs['expressions-first'] != outs['licensing-first'] or not isinstance(outs['licensing-first'], list):
+            return Verdict('spec', case, 'answers on hand-built expressions depend on which Licensing instances were created before',
+                           impl=outs['expressions-first'], model=outs['licensing-first'])
+        return Verdict('ok', case, nontrivial=True, tags=['pristine-process'])
+
     def run(self, drv, rng, tier, index, nworkers, scale):
         n = self.budget(tier, 1200, 20000, nworkers, scale)
         if index == 0:
+            self.record(self.pristine())
             for c in CORPUS:
                 self.record(self.eval_case(drv, c))
         for _ in range(n):
@@ -209,7 +255,7 @@ class Prop(BaseProp):
 
     def replay(self, drv, data):
         v = data.get('first') or (data.get('diverging') or [None])[0]
-        yield self.eval_case(drv, v['case'])
+        yield self.pristine() if 'pristine process' in v['case'] else self.eval_case(drv, v['case'])
 
 
 def _op(kind, inst=0, text='gplv2 and expat', **kw):
